@@ -15,7 +15,7 @@ import json, os, re, shutil, subprocess, sys
 ENV = dict(os.environ, GOFLAGS="-mod=mod", GOPROXY="off", GOSUMDB="off", GOTOOLCHAIN="local")
 WORK = "/tmp/sv/work"
 SEEDROOT = os.environ.get("SEEDROOT", "/tmp/seed")   # round 1: /tmp/seed (tags a, b); round 2: /tmp/seed2 (tags c, d)
-TAGMAP = {"a": "a", "b": "b"} if SEEDROOT == "/tmp/seed" else {"a": "c", "b": "d"}
+TAGMAP = {"/tmp/seed": {"a": "a", "b": "b"}, "/tmp/seed2": {"a": "c", "b": "d"}, "/tmp/seed3": {"a": "e", "b": "f"}, "/tmp/seed4": {"a": "g", "b": "h"}}[SEEDROOT]
 EXTRA = {"C11c": [], "C01c": ["C06", "C08"], "C01d": ["C06", "C08"], "C05c": ["C02", "C03"], "C05d": ["C02", "C03"], "C08c": ["C01", "C09"], "C08d": ["C01", "C09"], "C09c": ["C08", "C10"], "C09d": ["C08", "C10"],
          "C06c": ["C01", "C07"], "C06d": ["C01", "C07"], "C07c": ["C06", "C01"], "C07d": ["C06", "C01"], "C10c": ["C09"], "C10d": ["C09"], "C12c": ["C13"], "C12d": ["C13"], "C13c": ["C12", "C15"], "C13d": ["C12", "C15"],
          "C14c": ["C15"], "C14d": ["C15"], "C15c": ["C14", "C13"], "C15d": ["C14", "C13"], "C02c": ["C05"], "C02d": ["C05"], "C03c": ["C05"], "C03d": ["C05"], "C04c": ["C16"], "C04d": ["C16"], "C16c": ["C04", "C17"], "C16d": ["C04", "C17"],
@@ -77,7 +77,7 @@ def main():
                 print(tag, "does not apply")
                 continue
             ddir = meta.get("demo_package_dir", ".")
-            ddir = re.sub(r"^/tmp/seed2?/C\d\d/?", "", ddir).strip("/") or "."
+            ddir = re.sub(r"^/tmp/seed\d?/C\d\d/?", "", ddir).strip("/") or "."
             if ddir.startswith("(") or " " in ddir:
                 ddir = "."
             demo_src = open(f"{src}/demo_test.go").read()
@@ -108,7 +108,9 @@ def main():
             ok = rc_clean == 0 and builds and not missing and rc_pat != 0
             rec["kept"] = ok
             # our checks
-            checks = [pid] + EXTRA.get(tag, [])
+            NEIGH = {"C01": ["C06", "C08", "C10"], "C02": ["C05"], "C03": ["C05", "C10"], "C04": ["C16"], "C05": ["C02", "C03"], "C06": ["C01", "C07"], "C07": ["C06"], "C08": ["C01", "C09", "C10"], "C09": ["C08", "C10"],
+                     "C10": ["C09"], "C12": ["C13"], "C13": ["C12"], "C14": ["C15"], "C15": ["C14", "C13"], "C16": ["C04", "C17"], "C17": ["C16"], "C18": ["C09", "C10"]}
+            checks = [pid] + (EXTRA.get(tag) if tag in EXTRA else NEIGH.get(pid, []))
             caught = {}
             sh("git -C /repo checkout -- .")
             rc, out = sh(f"git -C /repo apply {patch}")
